@@ -468,7 +468,37 @@ func c18U32Child(e *Env) {
 		}
 		free()
 	}
+	// 2^32 (+3) list entries behind a 32-bit count cost nothing when the entries are zero-sized
+	for _, n := range []int{1 << 32, 1<<32 + 3} {
+		vs := make([]zeroObj, n)
+		for _, le := range []bool{false, true} {
+			name := map[bool]string{false: "WriteObjectList[uint32]", true: "WriteObjectListLE[uint32]"}[le]
+			b := new(bytes.Buffer)
+			log := openChildLog()
+			log.begin(n, name)
+			werr, p := mon.Call(func() error {
+				if le {
+					return codec.WriteObjectListLE[uint32](b, vs)
+				}
+				return codec.WriteObjectList[uint32](b, vs)
+			})
+			log.end(n)
+			r.Evals(1)
+			r.DistinctAdd(1)
+			if p != nil {
+				r.Violate("C18/prim-panic/"+name, "C18/prim-panic/"+name, map[string]any{"primitive": name, "length": n, "panic": p.Value})
+			} else if werr == nil {
+				r.Violate("C18/prim-silent-wrap/"+name, "C18/prim-silent-wrap/"+name, map[string]any{"primitive": name, "length": n, "prefix_max": uint32(0xFFFFFFFF), "first_bytes_written": val.Hex(b.Bytes(), 8), "note": "2^32 zero-sized entries"})
+			}
+		}
+	}
 }
+
+// zeroObj is a zero-sized list entry: a slice of 2^32 of them occupies no memory.
+type zeroObj struct{}
+
+func (zeroObj) Encode(*bytes.Buffer) error { return nil }
+func (zeroObj) Decode(*bytes.Buffer) error { return nil }
 
 func c18(e *Env) {
 	r := e.R
@@ -476,8 +506,8 @@ func c18(e *Env) {
 		c18U32Child(e)
 		return
 	}
-	r.Rule("primitive level: every prefixed writer (WriteString, WriteBasicTypeList ×5 element types, WriteFixedStringListWithPadding, WriteStringList count and per-element length, WriteObjectList; BE and LE variants) × prefix u8, u16 and defined types over them (`type Len uint16`) × lengths {max-1, max, max+1, 2·max+1}; message level: every prefixed-text / list / object-list field of every message type set to exactly max and max+1 (all other fields canonical), and every such body field at max+1 inside its frame (error must propagate); thorough: 2^32 and 2^32+5 bytes behind a u32 text prefix via a 4 GiB never-touched mapping, in a child process. distinct_nontrivial = distinct (site, length) observations")
-	r.Explain("Oracle: length <= prefix maximum ⇒ nil error and the matching reader returns the value (message level: full round trip ≡); length > maximum ⇒ non-nil error. A nil error above the maximum is the silent wrap the property forbids. 2^32-element lists (32 GiB of slice headers) are not reachable in this sandbox and are not claimed.")
+	r.Rule("primitive level: every prefixed writer (WriteString, WriteBasicTypeList ×5 element types, WriteFixedStringListWithPadding, WriteStringList count and per-element length, WriteObjectList; BE and LE variants) × prefix u8, u16 and defined types over them (`type Len uint16`) × lengths {max-1, max, max+1, 2·max+1}; message level: every prefixed-text / list / object-list field of every message type set to exactly max and max+1 (all other fields canonical), and every such body field at max+1 inside its frame (error must propagate); and, in a child process, 2^32 and 2^32+5 bytes behind a u32 text prefix (a 4 GiB never-touched mapping) and 2^32 / 2^32+3 zero-sized entries behind a u32 object-list count. distinct_nontrivial = distinct (site, length) observations")
+	r.Explain("Oracle: length <= prefix maximum ⇒ nil error and the matching reader returns the value (message level: full round trip ≡); length > maximum ⇒ non-nil error. A nil error above the maximum is the silent wrap the property forbids. Lists of 2^32 NON-empty elements (32 GiB of slice headers) are not reachable in this sandbox; the 32-bit count limit is exercised with zero-sized entries instead.")
 	r.Assume("u32-prefixed lists beyond 2^32 elements are out of reach (memory); u32-prefixed text is exercised in the thorough tier only")
 	if e.Only == "" || e.Only == "primitives" {
 		c := &c18ctx{e: e, prims: map[string]int{}}
@@ -492,11 +522,11 @@ func c18(e *Env) {
 	if e.Only != "primitives" {
 		c18Messages(e, false)
 	}
-	if e.Thorough && e.Only == "" {
+	if e.Only == "" {
 		outPath := monRoot() + "/.work/C18-u32.out"
 		logPath := monRoot() + "/.work/C18-u32.log"
 		os.Remove(logPath)
-		cmdArgs := []string{"C18", "--tier", "thorough", "--seed", fmt.Sprint(e.Seed), "u32-child"}
+		cmdArgs := []string{"C18", "--tier", e.Tier, "--seed", fmt.Sprint(e.Seed), "u32-child"}
 		died, timedOut, sum, relayed := runOneChild(cmdArgs, logPath, outPath, 20*time.Minute, nil)
 		r.Relay(relayed)
 		r.Evals(sum.Evaluations)
